@@ -11,8 +11,8 @@ EXTENDS KvExec, Json
 CONSTANTS Mode,      \* "c01" | "c04" | "c05" | "c07" | "c08" | "c09" | "c10"
           Scale      \* 1 = quick, 2 = thorough
 
-S(str) == str
-b(x) == x
+
+
 \* readable byte strings
 a == <<97>>   ab == <<97, 98>>   abc == <<97, 98, 99>>   bb == <<98>>   ba == <<98, 97>>
 c1 == <<99, 49>>   c2 == <<99, 50>>   dd == <<100>>   BU == <<66>>
@@ -165,15 +165,117 @@ C04Preds == { [st |-> Select(<<>>, ABin(op, l, k), <<>>, <<>>, NoLim), sid |-> "
 C04Cases == C04Fields \cup C04Preds
 
 -----------------------------------------------------------------------------
-StoreOf(sid) == CASE sid = "T" -> StoreT [] sid = "I" -> StoreI [] sid = "F" -> StoreF [] sid = "E" -> <<>>
-                  [] sid = "J" -> StoreJ [] sid = "V" -> StoreV [] sid = "S40" -> SeqStore(40) [] sid = "S7" -> SeqStore(7) [] OTHER -> <<>>
-StoreIds == {"T", "I", "F", "E", "J", "V", "S40", "S7"}
+(* c08: LIMIT grid.  Offsets and counts around multiples of every batch size the harness uses
+   (1, 2, 3, 32), result sizes around them, plain / ordered / aggregated statements.            *)
 
-Cases == CASE Mode = "c01" -> C01Cases [] Mode = "c10" -> C10Cases [] Mode = "c04" -> C04Cases [] OTHER -> {}
+KAll == ABin("^=", AKey, AStr(<<107>>))                                   \* every pair of SeqStore passes
+KSome == ABin(">", Call1("int", AVal), AInt(0))                           \* value (n*7)%5 > 0 : rejects every 5th pair
+GridSmall == {0, 1, 2, 3, 4, 6, 7}
+GridBig == {0, 1, 31, 32, 33, 64, 65, 70}
+SizesSmall == {0, 1, 2, 3, 4, 6, 7, 9}
+SizesBig == {31, 32, 33, 64, 65, 66}
+LimPlain(w) == Select(<<>>, w, <<>>, <<>>, NoLim)
+LimOrdered(w) == Select(<<>>, w, <<O(2, TRUE)>>, <<>>, NoLim)              \* order by value desc: many ties
+LimAggr(w) == Select(<<F(AVal, "g"), F(Call1("count", AInt(1)), "c")>>, w, <<>>, <<1>>, NoLim)    \* limit pushed into the aggregate node
+LimAggrOrd(w) == Select(<<F(AVal, "g"), F(Call1("count", AInt(1)), "c")>>, w, <<O(2, FALSE)>>, <<1>>, NoLim)
+WithLim(st, s, n) == [st EXCEPT !.lim = Lim(s, n)]
+SizeId(n) == "N" \o ToString(n)
+C08Select ==
+  { [st |-> WithLim(bs, s, n), sid |-> SizeId(sz)] :
+       bs \in {LimPlain(KAll), LimPlain(KSome), LimOrdered(KAll), LimAggr(KAll), LimAggrOrd(KAll)}, s \in GridSmall, n \in GridSmall, sz \in SizesSmall }
+  \cup { [st |-> WithLim(bs, s, n), sid |-> SizeId(sz)] :
+       bs \in {LimPlain(KAll), LimPlain(KSome)}, s \in GridBig, n \in GridBig, sz \in (IF Scale >= 2 THEN SizesBig ELSE {32, 33, 65}) }
+  \cup { [st |-> WithLim(bs, s, n), sid |-> SizeId(sz)] :
+       bs \in {LimOrdered(KAll), LimAggr(ABin("^=", AKey, AStr(<<107>>)))}, s \in {0, 31, 32, 33}, n \in {1, 32, 33}, sz \in {32, 33, 65} }
+C08Delete ==
+  { [st |-> Stmt("delete", <<>>, w, <<>>, <<>>, Lim(s, n)), sid |-> SizeId(sz)] : w \in {KAll, KSome}, s \in GridSmall, n \in GridSmall, sz \in SizesSmall \ {0} }
+  \cup { [st |-> Stmt("delete", <<>>, w, <<>>, <<>>, Lim(s, n)), sid |-> SizeId(sz)] : w \in {KAll, KSome}, s \in {0, 31, 32, 33, 64}, n \in {1, 32, 33}, sz \in {33, 65} }
+
+-----------------------------------------------------------------------------
+(* c07: ORDER BY *)
+
+\* duplicates and ties in every column; integer and float texts; Booleans through is_int
+StoreO == << SP(a, Dig(2)), SP(ab, Dig(10)), SP(abc, Dig(2)), SP(bb, <<49, 46, 53>>), SP(ba, Dig(1)), SP(c1, Dig(10)), SP(c2, <<120>>), SP(dd, <<49, 46, 53>>), SP(<<100, 100>>, Dig(1)) >>
+OrdFields == << F(AKey, ""), F(AVal, ""), F(Call1("float", AVal), "f"), F(Call1("is_int", AVal), "b"), F(Call1("upper", AVal), "u"), F(Call1("strlen", AVal), "n") >>
+OrdVecs == { <<O(f1, d1)>> : f1 \in 1..6, d1 \in BOOLEAN }
+           \cup { <<O(f1, d1), O(f2, d2)>> : f1 \in {2, 3, 4, 6}, f2 \in {1, 2, 5, 6}, d1 \in BOOLEAN, d2 \in BOOLEAN }
+           \cup { <<O(4, d1), O(6, d2), O(1, d3)>> : d1 \in BOOLEAN, d2 \in BOOLEAN, d3 \in BOOLEAN }
+OrdWheres == { All, ABin("!=", AVal, AStr(<<120>>)) }
+C07Plain == { [st |-> Select(OrdFields, w, ov, <<>>, NoLim), sid |-> "O"] : w \in OrdWheres, ov \in OrdVecs }
+            \cup { [st |-> Select(<<>>, All, ov, <<>>, NoLim), sid |-> sid] : ov \in { <<O(1, FALSE)>>, <<O(1, TRUE)>>, <<O(2, FALSE)>>, <<O(2, TRUE), O(1, TRUE)>> }, sid \in {"O", "T", "I", "E"} }
+\* aggregates as order keys; sums that are integer in one group and float in another
+AggFields == << F(ACall("substr", <<AKey, AInt(0), AInt(1)>>), "p"), F(Call1("count", AInt(1)), "c"), F(Call1("sum", Call1("float", AVal)), "s"), F(Call1("max", Call1("float", AVal)), "m") >>
+AggFieldsV == << F(ACall("substr", <<AKey, AInt(0), AInt(1)>>), "p"), F(Call1("sum", AVal), "s"), F(Call1("min", AVal), "m") >>
+C07Aggr == { [st |-> Select(AggFields, ABin("!=", AVal, AStr(<<120>>)), ov, <<1>>, NoLim), sid |-> "O"] :
+                ov \in { <<O(2, d1)>> : d1 \in BOOLEAN } \cup { <<O(3, d1)>> : d1 \in BOOLEAN } \cup { <<O(2, d1), O(4, d2)>> : d1 \in BOOLEAN, d2 \in BOOLEAN } \cup { <<O(1, TRUE)>> } }
+           \cup { [st |-> Select(AggFieldsV, ABin("!=", AVal, AStr(<<120>>)), ov, <<1>>, NoLim), sid |-> "O"] :
+                ov \in { <<O(2, d1)>> : d1 \in BOOLEAN } \cup { <<O(3, d1), O(1, FALSE)>> : d1 \in BOOLEAN } }
+C07Cases == C07Plain \cup C07Aggr
+
+-----------------------------------------------------------------------------
+(* c09: GROUP BY and aggregates *)
+
+\* value tuples that collide when concatenated: ('a','bc') / ('ab','c'), (1,'23') / (12,'3'); repeated groups
+StoreG == << SP(a, <<98, 99>>), SP(ab, <<99>>), SP(abc, <<98, 99>>), SP(bb, <<50, 51>>), SP(<<98, 98, 98, 98, 98, 98, 98, 98, 98, 98, 98, 98>>, <<51>>),
+             SP(c1, <<51>>), SP(c2, <<50, 51>>), SP(dd, <<99>>) >>
+GExprs == << F(AKey, ""), F(AVal, ""), F(ACall("substr", <<AKey, AInt(0), AInt(1)>>), "p"), F(Call1("upper", AVal), "u"), F(Call1("strlen", AKey), "l"),
+             F(Call1("strlen", AVal), "m") >>
+Aggs(x, xf) == << F(Call1("count", AInt(1)), "c"), F(Call1("sum", x), "s"), F(Call1("min", x), "mn"), F(Call1("max", x), "mx"), F(Call1("avg", x), "av"),
+                  F(Call2("group_concat", AVal, AStr(<<44>>)), "gc"), F(Call1("json_arrayagg", AVal), "ja"), F(Call1("json_arrayagg", x), "jn"),
+                  F(ABin("+", Call1("sum", x), Call1("count", AInt(1))), "sc"), F(ABin("*", Call1("sum", xf), AInt(2)), "s2"), F(Call1("sum", xf), "sf"),
+                  F(Call1("avg", xf), "af"), F(Call1("min", xf), "nf"), F(Call1("max", xf), "xf") >>
+GroupChoices == { <<1, 2>>, <<2>>, <<3>>, <<3, 2>>, <<5, 2>>, <<5, 6>>, <<4>>, <<3, 5, 6>>, <<2, 3>> }
+SeqOf(fs, idx) == [i \in 1..Len(idx) |-> fs[idx[i]]]
+LenX == Call1("strlen", AVal)
+LenF == ABin("*", Call1("strlen", AVal), AFlt(1, 1))
+C09Grouped == { [st |-> Select(SeqOf(GExprs, g) \o <<Aggs(LenX, LenF)[k]>>, w, <<>>, [i \in 1..Len(g) |-> i], NoLim), sid |-> "G"] :
+                  g \in GroupChoices, k \in 1..14, w \in {All, ABin("!=", AKey, AStr(dd))} }
+C09All == { [st |-> Select(<<Aggs(x, xf)[k]>>, w, <<>>, <<>>, NoLim), sid |-> sid] :
+              k \in 1..14, w \in {All, ABin(">", AKey, AStr(a)), ABin("=", AKey, AStr(<<122, 122>>))},
+              x \in {Call1("int", AVal)}, xf \in {Call1("float", AVal)}, sid \in {"I", "F"} }
+          \cup { [st |-> Select(<<F(Call1("count", AInt(1)), ""), F(Call1("sum", Call1("int", AVal)), ""), F(Call1("max", Call1("int", AVal)), "")>>, All, <<>>, <<>>, NoLim), sid |-> sid] : sid \in {"I", "E", "S40"} }
+C09Cases == C09Grouped \cup C09All
+
+-----------------------------------------------------------------------------
+(* c05: aliases and the field cache.  Stores in which the first, middle and last scanned rows fail the filter. *)
+
+NV == F(Call1("int", AVal), "n")
+UV == F(Call1("upper", AVal), "u")
+C05Stmts == {
+  Select(<<F(AKey, ""), NV>>, ABin(">", AName("n"), AInt(2)), <<>>, <<>>, NoLim),
+  Select(<<F(AKey, ""), NV>>, ABin("<=", AName("n"), AInt(2)), <<>>, <<>>, NoLim),
+  Select(<<NV, F(AKey, "k")>>, ABin("&", ABin(">", AName("n"), AInt(1)), ABin("!=", AName("k"), AStr(ab))), <<>>, <<>>, NoLim),
+  Select(<<F(AKey, ""), NV, F(ABin("*", AName("n"), AInt(2)), "d")>>, ABin(">", AName("d"), AInt(3)), <<>>, <<>>, NoLim),
+  Select(<<F(AKey, ""), UV, F(Call1("strlen", AName("u")), "l")>>, ABin("=", AName("l"), AInt(1)), <<>>, <<>>, NoLim),
+  Select(<<F(AKey, ""), F(AVal, "v"), F(ACall("join", <<AStr(<<44>>), AName("v"), AKey>>), "j")>>, ABin("!=", AName("v"), AStr(<<49>>)), <<>>, <<>>, NoLim),
+  Select(<<F(AKey, ""), NV, F(Call1("len", ACall("list", <<AName("n"), AInt(1)>>)), "ll")>>, ABin(">=", AName("n"), AInt(1)), <<>>, <<>>, NoLim),
+  Select(<<F(AKey, ""), NV, F(AIdx(ACall("int_list", <<AName("n"), AInt(5)>>), AInt(0)), "first")>>, ABin("!=", AName("n"), AInt(2)), <<>>, <<>>, NoLim),
+  Select(<<F(AKey, ""), NV, F(AIdx(ACall("float_list", <<AName("n"), AInt(5)>>), AInt(0)), "ff")>>, ABin("!=", AName("n"), AInt(2)), <<>>, <<>>, NoLim),
+  Select(<<F(AKey, ""), NV>>, ABin(">", AName("n"), AInt(0)), <<O(2, TRUE), O(1, FALSE)>>, <<>>, NoLim),
+  Select(<<F(AKey, ""), NV>>, ABin(">", AName("n"), AInt(1)), <<O(2, FALSE)>>, <<>>, Lim(1, 3)),
+  Select(<<NV, F(Call1("count", AInt(1)), "c")>>, ABin(">", AName("n"), AInt(0)), <<>>, <<1>>, NoLim),
+  Select(<<NV, F(Call1("count", AInt(1)), "c"), F(Call2("group_concat", AKey, AStr(<<44>>)), "ks")>>, ABin("!=", AName("n"), AInt(7)), <<O(2, TRUE)>>, <<1>>, NoLim),
+  Select(<<F(AKey, ""), NV>>, ABin("in", AName("n"), AList(<<AInt(1), AInt(2)>>)), <<>>, <<>>, NoLim),
+  Select(<<F(AKey, ""), NV>>, ABetween(AName("n"), AInt(2), AInt(7)), <<>>, <<>>, NoLim),
+  Select(<<F(AKey, ""), F(Call2("split", AVal, AStr(<<44>>)), "parts")>>, ABin("in", AStr(<<49>>), AName("parts")), <<>>, <<>>, NoLim),
+  Select(<<F(AKey, ""), NV>>, ABin("|", ABin("=", AName("n"), AInt(1)), ABin("=", AKey, AStr(bb))), <<>>, <<>>, NoLim),
+  Select(<<F(AKey, ""), NV>>, ABin("&", ABin("^=", AKey, AStr(a)), ABin(">", AName("n"), AInt(1))), <<>>, <<>>, NoLim),
+  Select(<<F(AKey, ""), NV>>, ABin("&", AIn(AKey, <<AStr(a), AStr(abc), AStr(c1), AStr(dd)>>), ABin(">", AName("n"), AInt(1))), <<>>, <<>>, NoLim),
+  Select(<<F(AKey, ""), NV>>, ABin("&", ABin(">", AKey, AStr(a)), ABin("!=", AName("n"), AInt(3))), <<>>, <<>>, NoLim),
+  Select(<<F(AKey, ""), NV, UV>>, ABin("&", ABin(">", AName("n"), AInt(0)), ABin("!=", AName("u"), AStr(<<55>>))), <<>>, <<>>, Lim(1, 4))
+}
+C05Cases == { [st |-> st, sid |-> sid] : st \in C05Stmts, sid \in {"I", "S7", "S40", "E"} }
+
+-----------------------------------------------------------------------------
+StoreOf(sid) == CASE sid = "T" -> StoreT [] sid = "I" -> StoreI [] sid = "F" -> StoreF [] sid = "E" -> <<>>
+                  [] sid = "J" -> StoreJ [] sid = "O" -> StoreO [] sid = "G" -> StoreG [] sid = "V" -> StoreV [] sid = "S40" -> SeqStore(40) [] sid = "S7" -> SeqStore(7) [] sid \in {SizeId(n) : n \in 0..100} -> SeqStore(CHOOSE n \in 0..100 : SizeId(n) = sid) [] OTHER -> <<>>
+StoreIds == {"T", "I", "F", "E", "J", "V", "O", "G", "S40", "S7"} \cup {SizeId(n) : n \in SizesSmall \cup SizesBig}
+
+Cases == CASE Mode = "c01" -> C01Cases [] Mode = "c10" -> C10Cases [] Mode = "c04" -> C04Cases [] Mode = "c08" -> C08Select [] Mode = "c08d" -> C08Delete [] Mode = "c07" -> C07Cases [] Mode = "c09" -> C09Cases [] Mode = "c05" -> C05Cases [] OTHER -> {}
 
 \* enumeration is split so that TLC's workers share it: Init picks a partition, Next a case of it
 FieldTag(c) == IF Len(c.st.fields) >= 2 THEN <<c.st.fields[2].e.k, c.st.fields[2].e.op, Len(c.st.fields[2].e.a)>> ELSE <<>>
-PartOf(c) == <<c.sid, c.st.where.k, c.st.where.op, Len(c.st.fields), Len(c.st.order), c.st.lim.s, FieldTag(c)>>
+PartOf(c) == <<c.sid, c.st.where.k, c.st.where.op, Len(c.st.fields), Len(c.st.order), c.st.lim.s, FieldTag(c), c.st.kind, c.st.group>>
 VARIABLES cs, stage
 vars == <<cs, stage>>
 Init == stage = 0 /\ cs \in {[part |-> PartOf(c)] : c \in Cases}
